@@ -388,7 +388,11 @@ def _oracle_one(case, rec, count=True):
         n, seed = case["n"], case["seed"]
         if fam in SEEDED_R:
             try:
+                # the global generator is in a known state before the first call and is USED between the two calls (as any
+                # simulation or unseeded draw in between would): an integer seed must make the draws independent of it
+                np.random.seed((seed * 2654435761 + 7) % (2 ** 32))
                 a = _call("r" + fam, fam, n, P, use_def, seed=seed)
+                np.random.random(3)
                 b = _call("r" + fam, fam, n, P, use_def, seed=seed)
             except Exception as e:
                 raise PropertyViolation(key + "/raises", "r%s(n=%d, seed=%d) raised %r" % (fam, n, seed, e), case)
